@@ -166,7 +166,14 @@ var raceFrameRe = regexp.MustCompile(`(?m)^\s+(github\.com/tdewolff/parse/v2[^\s
 func c20Race(r *Rng, tier string, rep *Report) {
 	bin := verifRoot + "/harness/bin/c20race"
 	env := append(os.Environ(), "CGO_ENABLED=1", "GOFLAGS=-mod=mod", "GOPROXY=off", "GOSUMDB=off", "GOTOOLCHAIN=local")
-	build := exec.Command("go", "build", "-race", "-tags", "verif", "-o", bin, "./cmd/c20race")
+	args := []string{"build", "-race", "-tags", "verif"}
+	if os.Getenv("VERIF_REPO") != "" {
+		// the check wrote go.alt.mod (replace => $VERIF_REPO) for a run against a scratch copy of the library
+		if _, err := os.Stat(verifRoot + "/harness/go.alt.mod"); err == nil {
+			args = append(args, "-modfile", verifRoot+"/harness/go.alt.mod")
+		}
+	}
+	build := exec.Command("go", append(args, "-o", bin, "./cmd/c20race")...)
 	build.Dir = verifRoot + "/harness"
 	build.Env = env
 	if out, err := build.CombinedOutput(); err != nil {
